@@ -68,6 +68,7 @@ let runners : (string * (z list -> z list)) list = [
   "hash", run_hash;
   "sol", run_sol;
   "buf", run_buf;
+  "fnode", run_fnode;
   "suspend", run_suspend;
   "once", run_once;
 ]
